@@ -377,6 +377,9 @@ def run(ctx):
     c13.check_alloc_guards(ctx, "C09.X")
     # the controller's "is this virtual qubit allocated?" test decides whether an arriving pair may take the id (shared with C12.B)
     c12.check_busy(ctx, ctx.repo.get_class(c12.EXE, "Executor"), "C09.X")
+    # 0 is an ordinary id / value / address: nothing int-valued may be tested by truthiness (nqsa/truth.py)
+    from .. import truth
+    truth.check(ctx, "C09.Z", ['netqasm.sdk.qubit', 'netqasm.sdk.memmgr', 'netqasm.backend.executor'])
 
 
 QB = "netqasm/sdk/qubit.py"
